@@ -59,7 +59,7 @@ func (e *Env) slotMutexSpansLoop(rule string) {
 
 func c07(e *Env) {
 	r := e.R
-	r.Explanation = "Structural necessary conditions of slot progress, decided on all paths: (R1) every slot-channel send is executed with the slot mutex held, so multi-token acquisitions of different tasks cannot interleave and starve each other; (R2) the release function acquires no mutex and performs no blocking operation other than its slot receives, so a blocked acquirer (which waits while holding the mutex) can always be unblocked; (R3) every Lock in acquire is followed by its Unlock on all returning paths; (R4) Process.Run rejects exactly CoresPerTask > cap(slots) by a never-returning call before the task-creation goroutine is started, and does not reject cores == max; (R5) no second gate: no mutex is (possibly) held while a task's command / Go function runs, and the only blocking channel operations between Execute's entry and the command are the slot sends; (R6) acquire/release pairing (a leaked token is a later deadlock)."
+	r.Explanation = "Structural necessary conditions of slot progress, decided on all paths: (R1) every slot-channel send is executed with the slot mutex held, so multi-token acquisitions of different tasks cannot interleave and starve each other; (R2) the release function acquires no mutex and performs no blocking operation other than its slot receives, so a blocked acquirer (which waits while holding the mutex) can always be unblocked; (R3) every Lock in acquire is followed by its Unlock on all returning paths; (R4) Process.Run rejects exactly CoresPerTask > cap(slots) by a never-returning call before the task-creation goroutine is started, and does not reject cores == max; (R5) no second gate: no mutex is (possibly) held while a task's command / Go function runs, and the only blocking channel operations between Execute's entry and the command are the slot sends; (R6) acquire/release pairing (a leaked token is a later deadlock); (R7) the scheduling loop of Process.Run keeps receiving new tasks until the feed channel is closed - nothing else may disable that arm of its select (shared with C05.R1/R2): a scheduler that holds tasks back because 'no slot is free anyway' counts finished-but-not-yet-forwarded tasks as running and leaves free slots unused."
 	r.NotDecided = "that k tasks which fit really overlap in time (goroutine scheduling), fairness between waiting tasks, liveness of the surrounding channel network (C05)."
 	a := e.anchors()
 	if !a.ok() {
@@ -150,6 +150,8 @@ func c07(e *Env) {
 	if nOps == 0 {
 		ob5b.Unknown("-", "no slot send found on the paths to the command")
 	}
+	// ---- R7 the scheduler itself is no gate: it keeps taking new tasks until the feed is closed (shared with C05.R1/R2)
+	e.procRunLoopAs("R7", "R7")
 	// ---- R6 pairing
 	const evRel core.Bits = 1
 	after := g.BackwardMust(func(n *core.Node) core.Bits {
